@@ -163,9 +163,9 @@ PROPS = {
              "oracle by routing, anchored on the first probe reply carrying the final description that the proxy consumed (+3 fake seconds, fair "
              "schedule): writes reach the claiming master, reads only it or its usable replicas, unclaimed slots are refused; "
              "non-trivial = history non-empty and probes were served",
-        quick=dict(budget_s=90, profiles=[P("C14", 200), P("C14", 100, "valid-only")]),
-        thorough=dict(budget_s=1800, profiles=[P("C14", 8000), P("C14", 2000, "long"), P("C14", 2000, "valid-only")]),
-        reach=["c14_history_steps", "c14_probe_requests_served"],
+        quick=dict(budget_s=90, profiles=[P("C14", 150), P("C14", 60, "valid-only"), P("C14", 90, "yield")]),
+        thorough=dict(budget_s=1800, profiles=[P("C14", 6000), P("C14", 2000, "long"), P("C14", 2000, "valid-only"), P("C14", 4000, "yield")]),
+        reach=["c14_history_steps", "c14_probe_requests_served", "yield_parked_cluster.servers-set", "yield_parked_cluster.before-flag"],
     ),
     "C20": dict(
         level="exploration",
